@@ -77,6 +77,32 @@ def check(ctx, rid):
                 if _s(sp) != want_sp:
                     ctx.violated(rid, tvc.methods["split"], f"_TensorViewer.split {lab} [{'batched' if batched else 'flat'}]", "split does not return, for part i, the entries at positions indices[i]", expected=str(want_sp), found=str(_s(sp)))
                     continue
+                # the SAME buffer object refilled in place (a pre-allocated array holding the next set of datasets): the next
+                # split / stitch works on the current content
+                buf = full if batched else full[0]
+                for r in range(rows):
+                    for j in range(n):
+                        (buf[r] if batched else buf)[j] = at(f"y{j}r{r}")
+                sp2 = w.call_method(tv, "split", [buf])
+                want_sp2 = [[[f"y{pos}r{r}" for pos in p] for r in range(rows)] for p in parts]
+                want_sp2 = want_sp2 if batched else [x[0] for x in want_sp2]
+                if _s(sp2) != want_sp2:
+                    ctx.violated(rid, tvc.methods["split"], f"_TensorViewer.split {lab} [{'batched' if batched else 'flat'}, same buffer refilled in place]", "a second split of the same array object after its content was replaced in place returns parts of the EARLIER content: something remembered from the previous call is keyed on the object, not on its values", expected=str(want_sp2), found=str(_s(sp2)))
+                    continue
+                for i, p in enumerate(parts):
+                    for k in range(len(p)):
+                        for r in range(rows):
+                            (arg[i][r] if batched else arg[i])[k] = at(f"q{i}k{k}r{r}")
+                st2 = w.call_method(tv, "stitch", [arg])
+                want2 = [[None] * n for _ in range(rows)]
+                for i, p in enumerate(parts):
+                    for k, pos in enumerate(p):
+                        for r in range(rows):
+                            want2[r][pos] = f"q{i}k{k}r{r}"
+                if _s(st2) != (want2 if batched else want2[0]):
+                    ctx.violated(rid, tvc.methods["stitch"], f"_TensorViewer.stitch {lab} [{'batched' if batched else 'flat'}, same part buffers refilled in place]", "a second stitch of the same part objects after their content was replaced in place returns the EARLIER content", expected=str(want2 if batched else want2[0]), found=str(_s(st2)))
+                    continue
+                st = st2
                 back = w.call_method(tv, "split", [st])
                 if _s(back) == _s(arg):
                     ctx.holds(rid, f"{site} [{'batched' if batched else 'flat'}]", "stitch by target position, split by position, split(stitch(d)) == d")
